@@ -6,15 +6,11 @@ import (
 	"time"
 
 	"gxverif/hx"
-
-	ipsetTest "tkestack.io/galaxy/pkg/utils/ipset/testing"
-	iptablesTest "tkestack.io/galaxy/pkg/utils/iptables/testing"
 )
 
-// NewBackend is replaced by the strict fakes of harness/nf when they are linked in (see backend_nf.go).
-var NewBackend = func() Backend {
-	return Backend{Ipt: &LockedIPT{In: iptablesTest.NewFakeIPTables()}, Ips: &LockedIPS{In: ipsetTest.NewFake("")}}
-}
+// NewBackend: the STRICT fakes of harness/nf behind the submission-time watcher and the multiport limit (a pod batch
+// that jumps to a missing policy chain, or a rule with more than 15 ports, is refused as by the kernel tools).
+var NewBackend = func() Backend { return NewStrictBackend().Backend }
 
 // CaseResult is what one cluster/policy case produced.
 type CaseResult struct {
@@ -92,7 +88,7 @@ func (bt *Batch) Add(name string, c *Cluster, ps []NetPol, flows []Flow) *CaseRe
 	var d *Dump
 	var derr error
 	out := hx.Guard(20*time.Second, func() {
-		m := NewManager(b, c.Node, nil)
+		m := NewFreshManager(b, c.Node)
 		m.World.Set(c, ps)
 		m.FullSync()
 		d, derr = TakeDump(b)
